@@ -384,3 +384,22 @@ MANIFEST_TEXT['C20']['level_text'] = ('Kernel level: exit code and report lines 
                                       'imported and/or requested) x format x --dry-run/--no-mib-writes/--ignore-errors/--no-dependencies the real mibdump exit status, report and '
                                       'destination directory match the ground truth; mibcopy on real directories for every revision pair / visiting order / alias file name.')
 MANIFEST_TEXT['C20']['level_note'] = 'Trusted: CrossHair/z3; fragment location is structural (a missing fragment is a harness error). Outside: network, process start, larger module sets.'
+
+PROPS['C03']['modules'] = PROPS['C03']['modules'] + ['harness.x03']
+PROPS['C03']['stubs'] = list(PROPS['C03'].get('stubs', [])) + ['EXEC conditions (C03.exec.*): the real jsondoc template is rendered and json.loads()-ed concretely on every solver-explored shape and compared with the captured context']
+MANIFEST_TEXT['C03']['technique'] += '; real template rendered and decoded concretely per solver-explored shape (EXEC)'
+for _p in ('C04', 'C05', 'C06', 'C15', 'C16'):
+    MANIFEST_TEXT[_p]['technique'] += '; template/CPython/pysnmp layer executed concretely once per solver-explored shape (engine EXEC) and compared with the JSON document'
+MANIFEST_TEXT['C04']['level_text'] = ('Context agreement and export closure solver-exhaustive within bounds; identifier paste-site safety by z3 regex theory; and - engine EXEC - '
+                                      'for every solver-explored shape (ordered pairs of declaration kinds x syntax/access variants, import closure, type chains) the text rendered by the '
+                                      'real template is compiled, loaded into a pysnmp MibBuilder and compared with the JSON document (export, kind, OID, access, base type, constraints, '
+                                      'defaults, references). The template layer is decided by concrete execution per shape, not symbolically.')
+MANIFEST_TEXT['C04']['level_note'] = 'Trusted: CrossHair/z3, Jinja2, CPython compile(), pysnmp as the judge of loadability. Outside: texts/numbers outside the pools, modules without IMPORTS.'
+PROPS['C04']['outside'] = ['shapes, names, numbers and texts outside the stated pools (EXEC is exhaustive over shapes, concrete in values)', 'modules without any IMPORTS clause',
+                           'plain types derived from a TEXTUAL-CONVENTION of the same module (known finding KF-pysnmp-type-before-tc)', 'hyphenated symbols imported between generated modules (known finding)']
+PROPS['C04']['bounds'] = '2 declarations over 11 kinds (3 in the thorough tier); identifier witnesses of length <= 3 (unsat answers hold for every length)'
+
+PROPS['C10']['files'] = list(PROPS['C10']['files']) + ['pysmi/searcher/pypackage.py']
+PROPS['C10']['functions'] = list(PROPS['C10']['functions']) + ['pysmi.searcher.pypackage.PyPackageSearcher.fileExists (egg loader branch and package-directory branch)']
+PROPS['C10']['stubs'] = list(PROPS['C10']['stubs']) + ['a fake package object in sys.modules (with a loader exposing a ZIP file table, or with __file__ inside the model file system); struct.unpack replaced in pysmi.searcher.pypackage']
+PROPS['C10']['outside'] = ['real zipimport loaders and real .pyc header layout (the header is modelled as magic + one time field)', 'case folding of module names by PyPackageSearcher', 'real file systems']
